@@ -19,16 +19,23 @@ extern void vp_native_assert_fail(int id, const char* txt);
 extern void vp_native_assume_fail(void);
 #define __CPROVER_assume(c) do { if (!(c)) vp_native_assume_fail(); } while (0)
 #define __CPROVER_assert(c, txt) do { if (!(c)) vp_native_assert_fail(-1, txt); } while (0)
-static inline int nondet_int(void) { return vp_native_nondet(0); }
-static inline unsigned nondet_uint(void) { return (unsigned)vp_native_nondet(1); }
-static inline unsigned char nondet_uchar(void) { return (unsigned char)vp_native_nondet(2); }
+static inline int vp_nd_int(void) { return vp_native_nondet(0); }
+static inline unsigned vp_nd_uint(void) { return (unsigned)vp_native_nondet(1); }
+static inline unsigned char vp_nd_uchar(void) { return (unsigned char)vp_native_nondet(2); }
 #define VP_ASSERT(c, id) do { if (!(c)) vp_native_assert_fail(id, "vp_assert"); } while (0)
 #define VP_DIV1E9(x) ((x) / 1000000000)
 #define VP_CHECK(c, txt) do { if (!(c)) vp_native_assert_fail(-1, txt); } while (0)
+static unsigned vp_nd_acc; static long long vp_nd_last;
 #else
 int nondet_int(void);
 unsigned nondet_uint(void);
 unsigned char nondet_uchar(void);
+/* every nondeterministic draw is recorded in vp_nd_last, so that the order and values can be read off a cbmc trace and fed
+   to the native build of the same generated C (replay of the counter-example, vcheck.py) */
+long long vp_nd_last; unsigned vp_nd_acc;   /* vp_nd_acc feeds a (trivially true) final assertion so that --slice-formula keeps every draw in the trace */
+static inline int vp_nd_int(void) { int v = nondet_int(); vp_nd_last = v; vp_nd_acc ^= (unsigned)v; return v; }
+static inline unsigned vp_nd_uint(void) { unsigned v = nondet_uint(); vp_nd_last = v; vp_nd_acc ^= v; return v; }
+static inline unsigned char vp_nd_uchar(void) { unsigned char v = nondet_uchar(); vp_nd_last = v; vp_nd_acc ^= v; return v; }
 #define VP_STR2(x) #x
 #define VP_STR(x) VP_STR2(x)
 #ifdef VP_WITNESS
@@ -46,7 +53,7 @@ unsigned char nondet_uchar(void);
 #if defined(VP_WITNESS) && !defined(VP_MUST_COVER) && !defined(VP_WITNESS_SYMBOLIC)
 #define VP_BUDGET(maxb) (maxb)
 #else
-static inline unsigned vp_budget(unsigned maxb) { unsigned b = nondet_uchar(); __CPROVER_assume(b <= maxb); return b; }
+static inline unsigned vp_budget(unsigned maxb) { unsigned b = vp_nd_uchar(); __CPROVER_assume(b <= maxb); return b; }
 #define VP_BUDGET(maxb) vp_budget(maxb)
 #endif
 /* ------------------------------------------------------------------ scheduler state */
@@ -90,12 +97,12 @@ static inline void vp_plain_block(void) {
   VP_CHECK(0, "blocking primitive not enabled in sequential/atomic context (self-deadlock)");
   __CPROVER_assume(0);
 }
-static inline uint8_t vp_nondet_bool(void) { return nondet_uchar() & 1; }
-static inline int32_t vp_nondet_int(void) { return nondet_int(); }
-static inline int32_t vp_nondet_range(int32_t lo, int32_t hi) { int v = nondet_int(); __CPROVER_assume(v >= lo && v <= hi); return v; }
+static inline uint8_t vp_nondet_bool(void) { return vp_nd_uchar() & 1; }
+static inline int32_t vp_nondet_int(void) { return vp_nd_int(); }
+static inline int32_t vp_nondet_range(int32_t lo, int32_t hi) { int v = vp_nd_int(); __CPROVER_assume(v >= lo && v <= hi); return v; }
 static inline int32_t vp_tid(void) { return vp_cur; }
 static inline void vp_point(void) {}
-static inline int vp_timeout_fires(void) { return nondet_uchar() & 1; }
+static inline int vp_timeout_fires(void) { return vp_nd_uchar() & 1; }
 
 /* ------------------------------------------------------------------ ghost state for harness monitors */
 #define VP_NG 24
@@ -180,7 +187,7 @@ static inline int vp_rw_unlock(char* l) {
 /* ------------------------------------------------------------------ clock: non-decreasing, otherwise arbitrary */
 int64_t vp_now = 1000;
 static inline int64_t vp_clock_now(void) {
-  unsigned d = nondet_uint();
+  unsigned d = vp_nd_uint();
   vp_now += (int64_t)d;
   return vp_now;
 }
@@ -203,8 +210,8 @@ static inline int vp_cv_can_wake(char* cv, char* mx, int timed) {
   int sig = (((int*)cv)[1] >> vp_cur) & 1;
   int why = 0;
   if (!sig) {
-    if (vp_spur[vp_cur] > 0 && (nondet_uchar() & 1)) why = 1;
-    else if (timed && (nondet_uchar() & 1)) why = 2;
+    if (vp_spur[vp_cur] > 0 && (vp_nd_uchar() & 1)) why = 1;
+    else if (timed && (vp_nd_uchar() & 1)) why = 2;
     else return 0;
   }
   if (*(int*)mx != 0) return 0;
@@ -227,7 +234,7 @@ static inline void vp_cv_notify_all(char* cv) { ((int*)cv)[1] |= ((int*)cv)[0]; 
 static inline void vp_cv_notify_one(char* cv) {
   int cand = ((int*)cv)[0] & ~((int*)cv)[1];
   if (cand) {
-    int t = nondet_uchar();
+    int t = vp_nd_uchar();
     __CPROVER_assume(t < VP_MAXT && ((cand >> t) & 1));
     ((int*)cv)[1] |= (1 << t);
   }
